@@ -49,7 +49,15 @@ Definition sm_init : sm := MkSm PInit ∅ metrics_init.
 (* a parsed BGP UPDATE as far as the state machine looks at it *)
 Inductive upd :=
 | UEor (fam : N)                                      (* End-of-RIB marker for a family *)
-| URoutes (afam : N) (ann : list N) (attrs : N) (wfam : N) (wd : list N).
+| URoutes (afam : N) (ann : list N) (attrs : N) (wfam : N) (wd : list N)
+(* the general form (an UPDATE taken from the wire, Pipe/PipeRaw.v): routes of several
+   families, and the three things the state machine asks routecore about the message:
+     lax     - UpdateMessage::is_eor(): Some f = the empty UPDATE (f = IPv4 unicast) or the first
+               MP_UNREACH_NLRI (of family f) yields no NLRI - whatever else the UPDATE carries;
+     carries - the guard of the dump phase (states/dumping.rs): withdrawn routes, NLRI or an
+               MP_REACH_NLRI attribute are present;
+     ffam    - the family of the first entry of announcements_vec() (conventional NLRI first) *)
+| UGen (lax : option N) (carries : bool) (ffam : N) (ann : list (N * N)) (attrs : N) (wd : list (N * N)).
 
 Inductive msg :=
 | MInit | MTerm
@@ -67,17 +75,36 @@ Definition is_eor (u : upd) : option N :=
   | _ => None
   end.
 
+Definition no_routes {A} (l : list A) : bool := match l with [] => true | _ => false end.
+
+(* the End-of-RIB test of route_monitoring_preprocessing: the dump phase (states/dumping.rs) only
+   accepts the marker on an UPDATE that carries nothing, the updating phase (states/updating.rs)
+   takes routecore's answer as it is (and goes on to process the routes) *)
+Definition eor_in (ph : phase) (u : upd) : option N :=
+  match u with
+  | UGen lax carries _ ann _ wd =>
+      match ph with
+      | PDump => if carries || negb (no_routes ann) || negb (no_routes wd) then None else lax
+      | _ => lax
+      end
+  | _ => is_eor u
+  end.
+
 Definition payloads_of (id : N) (u : upd) : list payload :=
   match u with
   | UEor _ => []
   | URoutes af ann attrs wf wd =>
       (* withdrawals first, then announcements: a prefix listed in both ends up announced (RFC 4271 4.3) *)
       map (fun p => MkPay (wf, p, id) false 0%N) wd ++ map (fun p => MkPay (af, p, id) true attrs) ann
+  | UGen _ _ _ ann attrs wd =>
+      map (fun fp : N * N => MkPay (fp.1, fp.2, id) false 0%N) wd ++ map (fun fp : N * N => MkPay (fp.1, fp.2, id) true attrs) ann
   end.
-Definition n_ann (u : upd) : N := match u with URoutes _ ann _ _ _ => N.of_nat (length ann) | _ => 0%N end.
-Definition n_wd (u : upd) : N := match u with URoutes _ _ _ _ wd => N.of_nat (length wd) | _ => 0%N end.
+Definition n_ann (u : upd) : N :=
+  match u with URoutes _ ann _ _ _ => N.of_nat (length ann) | UGen _ _ _ ann _ _ => N.of_nat (length ann) | _ => 0%N end.
+Definition n_wd (u : upd) : N :=
+  match u with URoutes _ _ _ _ wd => N.of_nat (length wd) | UGen _ _ _ _ _ wd => N.of_nat (length wd) | _ => 0%N end.
 Definition first_ann_fam (u : upd) : option N :=
-  match u with URoutes af (_ :: _) _ _ _ => Some af | _ => None end.
+  match u with URoutes af (_ :: _) _ _ _ => Some af | UGen _ _ ff (_ :: _) _ _ => Some ff | _ => None end.
 
 Definition all_pending_empty (ps : gmap pph peer) : bool :=
   forallb (fun kv : pph * peer => bool_decide (pe_pending kv.2 = ∅)) (map_to_list ps).
@@ -133,11 +160,11 @@ Definition route_monitoring (r : reg) (s : sm) (p : pph) (u : option upd) : reg 
       | None => invalid r s
       | Some u =>
           (* state specific pre-processing: End-of-RIB bookkeeping *)
-          let ps1 := match is_eor u with
+          let ps1 := match eor_in (sm_phase s) u with
                      | Some f => <[ p := MkPeer (pe_eor pe) (pe_pending pe ∖ {[ f ]}) (pe_id pe) ]> (sm_peers s)
                      | None => sm_peers s
                      end in
-          let last := match is_eor u with Some _ => all_pending_empty ps1 | None => false end in
+          let last := match eor_in (sm_phase s) u with Some _ => all_pending_empty ps1 | None => false end in
           let m1 := set_gauges (sm_metrics s) ps1 in
           match sm_phase s, last with
           | PDump, true => (r, MkSm PUpd ps1 (set_state m1 PUpd), OTransition)
